@@ -36,7 +36,13 @@ pub fn hostile_input(ty: &Ty, g: &mut Gen) -> (Vec<u8>, bool, String) {
 		return (bytes, false, "no-count-in-value".into());
 	}
 	let c = g.pick(&counts).clone();
-	let mut n: u64 = match g.below(8) {
+	let window = (16384 / c.elem_mem.max(1)) as u64;
+	let mut n: u64 = match g.below(12) {
+		// inside and around the preallocation window, in items and in bytes
+		8 => 16384 - g.below(3) as u64,
+		9 => window + 1 + g.below(3) as u64,
+		10 => window * 2 + g.below(window as usize + 1) as u64,
+		11 => 1000 + g.below(15384) as u64,
 		0 | 1 => u64::from(u32::MAX),
 		2 => u64::from(u32::MAX) - 1,
 		3 => 1 << 30,
@@ -194,7 +200,7 @@ pub fn run(ctx: &Ctx) -> (Level, Report) {
 		Level {
 			level: "exploration",
 			rule: "every zoo type containing a sequence/map/list/heap/deque/string/bit-sequence/byte-buffer: a valid encoding whose count at a generated \
-nesting position is replaced by 2^32-1, 2^32-2, 2^30, 2^24, 2^16, count+1 or a random u32 (bit sequences also 2^29-1), followed by 0..64 KiB of \
+nesting position is replaced by 2^32-1, 2^32-2, 2^30, 2^24, 2^16, count+1, counts in and around the 16 KiB window (16384 items, window+1.., 1000..16384) or a random u32 (bit sequences also 2^29-1), followed by 0..64 KiB of \
 zero / random / plausible payload, over slice, unknown-length and shared-buffer inputs; plus ordinary mutated inputs. Oracle: a counting \
 global allocator (per-thread) around the decode call alone: peak live bytes and the largest single request must stay below \
 8*c_T*len + 64*len + 64 KiB*(depth_T+1), where c_T is the type's largest in-memory/encoded element size ratio; requests above 2 GiB are refused, \
